@@ -157,6 +157,16 @@ def run(ctx):
     s3 = list(gen.d_char(gen.A_CHAR + ["\t", "["], 4))
     s4 = list(gen.uniq(gen.d_trig()))
     small = list(gen.uniq(list(gen.POOL) + list(gen.d_line(gen.V_ALL, 1)) + list(gen.d_trig_small())))
+    # a multi-line inline element (its line ending inside the element) followed, in the same paragraph, by lines on which
+    # line-start rules look at the paragraph's per-line leading white space
+    ml = []
+    for pre in ("", "> ", "- ", "1. "):
+        pad = " " * len(pre) if pre in ("- ", "1. ") else pre
+        for elem in ("abc ` code\n{i}` def", "x [t\n{i}u](/v) y", "x *a\n{i}b* y", "x <b\n{i}c='d'> y", "abc\\\n{i}def"):
+            for ind in ("", " ", "   "):
+                for tail in ("#a", "  #a", "#a#", "a  b", "* a *", "http://x.y"):
+                    ml.append(pre + elem.replace("{i}", pad + ind) + "\n" + pad + tail + "\n")
+    small += ml
     if ctx.tier == "quick":  # a seed-selected subset of the space the thorough tier walks completely
         docs = list(gen.uniq(small + gen.sample(s1, 1500, ctx.seed) + gen.sample(s2, 1200, ctx.seed + 1) + gen.sample(s3, 600, ctx.seed + 2) + gen.sample(s4, 1500, ctx.seed + 3)))
         alone_docs = small
